@@ -66,7 +66,7 @@ def gen_cases(tier, seed):
     for i in range(60 if tier == "quick" else 800):
         d = rng.randrange(1, N)
         z = [0, 1, N - 1, N, N + 1, (1 << 256) - 1, rng.getrandbits(256)][i % 7]
-        yield "ecverify", {"d": hex(d), "k": hex(rng.randrange(1, N)), "z": hex(z), "mut": ["none", "high_s", "flip_r", "flip_s", "flip_z", "offcurve_pt", "infinity", "offcurve_crafted", "endo_opposite", "endo_same_y"][i % 10 if i % 11 else 0],
+        yield "ecverify", {"d": hex(d), "k": hex(rng.randrange(1, N)), "z": hex(z), "mut": ["none", "high_s", "flip_r", "flip_s", "flip_z", "offcurve_pt", "infinity", "offcurve_crafted", "endo_opposite", "endo_same_y", "tuple_coord_unreduced"][i % 11 if i % 13 else 0],
                            "bit": rng.randrange(256)}
     # ensure_sig_low_s
     for nb in range(1, 33):
@@ -91,7 +91,7 @@ def gen_cases(tier, seed):
 
 def required(tier):
     return {"sigverify.decided": 1500, "sigverify.expected_accept": 150, "sigverify.expected_reject": 1000,
-            "mut.infinity": 20, "keys.class.offcurve_pseudo_root": 10, "keys.class.coord_plus_p": 100, "keys.class.valid": 10, "sigverify.via_cli": 80, "mut.high_s": 50, "mut.pub_65_with_02": 50, "ecverify.decided": 50, "structured.s_asn1_lookalike": 6, "ecverify.offcurve_crafted": 4, "ecverify.endo_digest": 6,
+            "mut.infinity": 20, "keys.class.offcurve_pseudo_root": 10, "keys.class.coord_plus_p": 100, "keys.class.valid": 10, "sigverify.via_cli": 80, "mut.high_s": 50, "mut.pub_65_with_02": 50, "ecverify.decided": 50, "structured.s_asn1_lookalike": 6, "ecverify.offcurve_crafted": 4, "ecverify.endo_digest": 5, "ecverify.tuple_unreduced": 3,
             "lows.decided": 60, "lows.class.short_complement": 20, "small.decided": 100000,
             "small.expected_accept": 100, "small.class.x_ge_n": 10, "small.class.R_infinity": 100}
 
@@ -405,6 +405,10 @@ def _ecverify(ctx, d, k, z, mut, bit, k_for_inf):
             z = _flip(z, bit)
         elif mut == "offcurve_pt":
             pt = (pt[0], (pt[1] + 1 + bit) % P)
+        elif mut == "tuple_coord_unreduced":
+            # the point handed over as integers that are not field elements: x + p, y + p, x - p, several multiples (the same point "mod p")
+            pt = [(pt[0] + P, pt[1]), (pt[0], pt[1] + P), (pt[0] - P, pt[1]), (pt[0] + 5 * P, pt[1] - 2 * P), (pt[0] + P, pt[1] + P)][bit % 5]
+            ctx.count("ecverify.tuple_unreduced")
         elif mut in ("endo_opposite", "endo_same_y"):
             # digest chosen so that the verifier's two partial points u1*G and u2*P are DIFFERENT points with opposite y (or the same y):
             # z = -lambda * r * d (or +lambda * r * d).  A valid signature like any other; the final addition is the rare one.
@@ -443,7 +447,7 @@ def _ecverify(ctx, d, k, z, mut, bit, k_for_inf):
             if secp.SECP.on_curve(pt):
                 return      # 2^-256
             ctx.count("ecverify.offcurve_crafted")
-    expected = recdsa.verify(pt, z, r, s) if secp.SECP.on_curve(pt) else False
+    expected = recdsa.verify(pt, z, r, s) if (0 <= pt[0] < P and 0 <= pt[1] < P and secp.SECP.on_curve(pt)) else False
     try:
         out = em.verify(r, s, pt, z)
         lib_ok = out is True
